@@ -62,6 +62,8 @@ def check(ctx):
         # estimate / spent are values the scheduler computes itself (they are not among the things C06 promises to carry over:
         # ids, hierarchy, order, links, custom attributes); a copy that loses them is C04's / C10's finding
         clone_provenance(ctx, _Only(o, drop=("__estimate", "__spent")), ('fields',))
+        lossy_clone_keys(ctx, o)
+        links_deduplicated_by_identity(ctx, o)
     ctx.guarded(o, faithful)
 
     o = ctx.ob('scheduler_frame', 'R9a',
@@ -111,6 +113,90 @@ def check(ctx):
 
 
 # ======================================================================================================================
+_LOSSY_CONV = ('str', 'repr', 'int', 'float', 'bool', 'hash', 'format', 'round', 'abs')
+_LOSSY_METH = ('lower', 'upper', 'casefold', 'strip', 'lstrip', 'rstrip', 'title', 'format', '__str__', '__repr__', '__hash__')
+
+
+def _lossy_id_key(k):
+    """the conversion when a dict key / subscript is a type- or case-folding conversion of some `<x>.id` (`str(t.id)`, `f"{t.id}"`,
+    `t.id.lower()`): ids that differ only in type or case are different ids of one WBS, but share one entry then"""
+    def has_id(e):
+        return any(isinstance(x, ast.Attribute) and x.attr == 'id' for x in ast.walk(e))
+    if isinstance(k, ast.Call) and isinstance(k.func, ast.Name) and k.func.id in _LOSSY_CONV and k.args and has_id(k.args[0]):
+        return k.func.id + '()'
+    if isinstance(k, ast.Call) and isinstance(k.func, ast.Attribute) and k.func.attr in _LOSSY_METH and has_id(k.func.value):
+        return '.' + k.func.attr + '()'
+    if isinstance(k, ast.JoinedStr) and has_id(k):
+        return 'an f-string'
+    if isinstance(k, ast.BinOp) and isinstance(k.op, ast.Mod) and isinstance(k.left, ast.Constant) and isinstance(k.left.value, str) and has_id(k.right):
+        return '%-formatting'
+    return None
+
+
+def lossy_clone_keys(ctx, o):
+    """the maps clone() works with (id -> source task, id -> copy) and the root lookup are keyed by the id itself"""
+    prog = ctx.prog
+    for q in ('wbs.WBS.__clone_tasks', 'wbs.WBS.__clone', 'wbs.WBS.clone'):
+        f = prog.funcs.get(q)
+        if f is None:
+            continue
+        seen = set()
+        for n in walk_no_nested(f.node):
+            keys = []
+            if isinstance(n, ast.DictComp):
+                keys.append((n.key, n))
+            elif isinstance(n, ast.Assign):
+                keys += [(t.slice, n) for t in n.targets if isinstance(t, ast.Subscript)]
+            for k, holder in keys:
+                conv = _lossy_id_key(k)
+                if conv and src(k) not in seen:
+                    seen.add(src(k))
+                    o.refute(f, holder, k, f"the clone works with a map keyed by `{src(k)}` ({conv} of the id), not by the id itself: tasks of one WBS "
+                                           f"whose ids differ only in type or spelling (1 and '1') share one entry - the result loses a task and "
+                                           f"hangs its children and links on the other one (ids / hierarchy of the result differ from the input)")
+
+
+def links_deduplicated_by_identity(ctx, o):
+    """clone() hands each copy its links through the dependency setters; when those pass the given tasks through `_unique_tasks`,
+    that helper has to compare objects: a link list may hold a member and an outside task with the same id (ids are unique inside
+    one WBS only), and de-duplicating by id drops one of the two links from the result (same test as C01.closure)"""
+    prog = ctx.prog
+    u = prog.funcs.get('task._unique_tasks')
+    if u is None:
+        return
+    users = [q for q in ('task.Task.predecessors.setter', 'task.Task.successors.setter')
+             if prog.funcs.get(q) is not None and facts.calls_named(prog.funcs[q], '_unique_tasks')]
+    if not users:
+        return
+    ux = Expander(prog, u, ctx.typer, inline=False)
+
+    def keyed(pred0):
+        def pred(e):
+            if pred0(e):
+                return True
+            try:
+                return isinstance(e, ast.Name) and cfg_of(u).node_containing(e) is not None and pred0(ux.expand(e))
+            except Exception:
+                return False
+        for n in ast.walk(u.node):
+            if isinstance(n, ast.Compare) and len(n.ops) == 1 and isinstance(n.ops[0], (ast.In, ast.NotIn)) and pred(n.left):
+                return n
+            if isinstance(n, ast.Call) and isinstance(n.func, ast.Attribute) and n.func.attr in ('add', 'setdefault') and n.args and pred(n.args[0]):
+                return n
+            if isinstance(n, ast.Subscript) and isinstance(n.ctx, ast.Store) and pred(n.slice):
+                return n
+            if isinstance(n, ast.DictComp) and pred(n.key):
+                return n
+            if isinstance(n, ast.SetComp) and pred(n.elt):
+                return n
+        return None
+    by_id = keyed(lambda e: isinstance(e, ast.Attribute) and e.attr == 'id' and isinstance(e.value, ast.Name))
+    if by_id is not None:
+        o.refute(u, by_id, '_unique_tasks by id', f"`{src(by_id)[:60]}`: the links a copy receives (WBS.__clone_tasks -> {', '.join(unmangle(q.split('.')[-2]) for q in users)} "
+                                                 f"setter -> _unique_tasks) are de-duplicated by task id, not by object: a member and an outside task "
+                                                 f"with the same id in one link list collapse into one, the result loses a dependency link of the input")
+
+
 def input_untouched(ctx, o, eff: Effects):
     prog = ctx.prog
     for S, vs in ((FWD, VALIDATORS_FWD), (BWD, VALIDATORS_BWD)):
@@ -255,7 +341,9 @@ def frame(ctx, o, eff: Effects):
                 continue        # the clearing loop was folded into calc (analysed there by C07)
             for (fld, root) in sorted(eff.writes_star(f)):
                 via = eff.write_origin(f, (fld, root))
-                if fld in TASK_DATA_FIELDS:
+                if fld in TASK_DATA_FIELDS or fld in ('estimate', 'spent'):
+                    # `x.estimate = v` on a receiver the typer could not follow (an element popped from a work list): on a task this is
+                    # the estimate / spent setter - the data field - and no other class of the package has an attribute of that name
                     o.site(f, f.node, f"writes {unmangle(fld)} ({root})")
                     continue
                 if fld in _memo_cache_fields(prog):
@@ -588,6 +676,48 @@ def clock_sites(ctx, o, eff: Effects):
                 o.refute(f, n, par if par is not None else n, f"the constructor reads the clock even when `{arg}` is given")
 
 
+def _running_max_floor(ps, name, at):
+    """the initialising definition of a local that is a running maximum: exactly one definition `acc = B` that dominates all the
+    others and the read at `at`, and every other definition only raises it - `acc = max(acc, ..)` or `acc = E` under the test
+    `E > acc` (any spelling / polarity, `continue` guards included).  Then acc >= B where it is read.  None when not that shape."""
+    ds = ps.fl.defs_of(name)
+    if len(ds) < 2 or name in ps.f.params:
+        return None
+    inits, raising = [], []
+    for d in ds:
+        if d.kind != 'assign' or d.value is None or d.node is None:
+            return None
+        v = d.value
+        largs = facts.flatten_lattice(v, 'max')
+        if largs and any(isinstance(a, ast.Name) and a.id == name for a in largs):
+            raising.append(d)
+            continue
+        up = False
+        for t, pol in ps.cfg.conditions(d.node):
+            for t1, p1 in facts.split_conj(t, pol):
+                if not (isinstance(t1, ast.Compare) and len(t1.ops) == 1):
+                    continue
+                l, op, r = t1.left, t1.ops[0], t1.comparators[0]
+                is_acc = lambda e: isinstance(e, ast.Name) and e.id == name
+                # new > acc  (True)   /  not (new <= acc)
+                if p1 and (isinstance(op, (ast.Gt, ast.GtE)) and same(l, v) and is_acc(r) or isinstance(op, (ast.Lt, ast.LtE)) and is_acc(l) and same(r, v)):
+                    up = True
+                if not p1 and (isinstance(op, (ast.Lt, ast.LtE)) and same(l, v) and is_acc(r) or isinstance(op, (ast.Gt, ast.GtE)) and is_acc(l) and same(r, v)):
+                    up = True
+        if up:
+            raising.append(d)
+        else:
+            inits.append(d)
+    if len(inits) != 1 or not raising:
+        return None
+    i0 = inits[0]
+    if not all(ps.cfg.dominates(i0.node, r.node) for r in raising) or at is None or not ps.cfg.dominates(i0.node, at):
+        return None
+    if any(ps.cfg.can_reach(r.node, i0.node) for r in raising):
+        return None     # the initialisation sits inside the loop: re-executed, still a floor, but keep to the plain shape
+    return i0
+
+
 def clock_guard(ctx, o):
     prog = ctx.prog
     ps = PassShape(ctx, FWD)
@@ -651,22 +781,47 @@ def clock_guard(ctx, o):
         else:
             o.refute(f, n, par if par is not None else n, "clock read outside a max(): the result depends on the clock even before the project start")
             continue
-        guarded = False
         pe_has_bound = pt is not None and any(isinstance(x, ast.Name) and x.id == ps.bound for x in pt['args'])
-        for a in others:
-            ax = ps.ex.expand(a, ps.cfg.node_containing(par), stop={pt['name']} if pt else None)
-            args = facts.flatten_lattice(ax, 'max') or [ax]
+        stop_ = {pt['name']} if pt else None
+        at_par = ps.cfg.node_containing(par)
+
+        def value_cases(e, at, depth=0):
+            """the values an operand can have: conditional expressions split, and a local with several reaching plain assignments
+            (`x = A; if c: if d: x = B`) replaced by the values of those assignments"""
+            ex_ = ps.ex.expand(e, at, stop=stop_)
+            out = []
+            for _, v in sched.expr_cases(ex_):
+                if isinstance(v, ast.Name) and v.id not in ps.f.params and depth < 3 and at is not None and not (pt and v.id == pt['name']) \
+                        and _running_max_floor(ps, v.id, at) is None:
+                    rd = ps.fl.reaching(v.id, at)
+                    if len(rd) > 1 and all(d.kind == 'assign' and d.value is not None and d.node is not None and d.node is not at for d in rd):
+                        for d in rd:
+                            out += value_cases(d.value, d.node, depth + 1)
+                        continue
+                out.append((v, at))
+            return out
+
+        def case_guarded(v, at):
+            args = facts.flatten_lattice(v, 'max') or [v]
+            # a running maximum (`acc = B; for ..: if E > acc: acc = E`) is bounded below by its initial value
+            for x in list(args):
+                fl_ = _running_max_floor(ps, x.id, at) if isinstance(x, ast.Name) else None
+                if fl_ is not None:
+                    ix = ps.ex.expand(fl_.value, fl_.node, stop=stop_)
+                    args = args + (facts.flatten_lattice(ix, 'max') or [ix])
             if any(isinstance(x, ast.Name) and x.id == ps.bound for x in args) or any(match(f"self.{FWD['bound']}", x) for x in args):
-                guarded = True
-            if pe_has_bound and any(isinstance(x, ast.Name) and x.id == pt['name'] for x in args):
-                guarded = True
+                return True
+            return bool(pe_has_bound and any(isinstance(x, ast.Name) and x.id == pt['name'] for x in args))
+
+        op_cases = [value_cases(a, at_par) for a in others]
+        guarded = any(cs and all(case_guarded(v, at) for v, at in cs) for cs in op_cases)
         fill_name = prog.func(FWD['fill']).name
         construct = par
-        ox = [ps.ex.expand(a, ps.cfg.node_containing(par), stop={pt['name']} if pt else None) for a in others]
-        if len(ox) == 1 and match(f"{ps.task}.start", ox[0]):
+        # the cases of the single other operand that are not bounded below by the project start
+        open_cases = [v for v, at in op_cases[0] if not case_guarded(v, at)] if len(op_cases) == 1 else []
+        if open_cases and all(match(f"{ps.task}.start", v) for v in open_cases):
             construct = 'max(task.start, clock) [start of the fill]'
-        elif len(ox) == 1 and isinstance(ox[0], ast.Call) and isinstance(ox[0].func, ast.Attribute) and \
-                unmangle(ox[0].func.attr) == fill_name:
+        elif open_cases and all(isinstance(v, ast.Call) and isinstance(v.func, ast.Attribute) and unmangle(v.func.attr) == fill_name for v in open_cases):
             construct = 'max(fill(...), clock) [leaf end]'
         if guarded:
             o.site(f, par, f"max({', '.join(src(a)[:25] for a in par.args)}) contains a term >= project start")
